@@ -1,0 +1,31 @@
+//go:build verif
+
+// Machine-checked contracts for this package (guard: build tag `verif`; this file contains comments only).
+// Read by /verif/bin/govc: each `//@ unit` section is one verification unit (the functions matching `filter`,
+// verified against the contracts of the section; callees are used through their contracts only).
+
+package internalsrv
+
+//@ unit internal_handler props=C03,C12 filter=`internalsrv\.Internal\)\.ServeHTTP$`
+//@ ghost nextCalls int
+//@ extern invoke:(github.com/tmpim/casket/caskethttp/httpserver.Handler).ServeHTTP
+//@   modifies ghost:nextCalls, URL.Path
+//@   ensures nextCalls == old(nextCalls) + 1
+//@ extern (github.com/tmpim/casket/caskethttp/httpserver.Path).Matches
+//@   pure
+//@ func isInternalRedirect
+//@ func (internalResponseWriter).ClearHeader
+//@ extern invoke:(net/http.ResponseWriter).Header
+//@   ensures result != nil
+
+//@ define protected(k int) bool = httpserver.Path(old(r.URL.Path)).Matches(i.Paths[k])
+
+//@ func (Internal).ServeHTTP
+//@   requires r != nil && r.URL != nil && i.Next != nil
+//@   modifies URL.Path
+//@   ensures [protected_not_served] exists(k, 0, len(i.Paths), protected(k)) ==> (result0 == 404 && result1 == nil && nextCalls == old(nextCalls))
+//@   ensures [bounded_redirects] nextCalls <= old(nextCalls) + 11
+//@   loop 1 invariant 0 <= #i && #i <= len(i.Paths) && nextCalls == old(nextCalls) && r.URL == old(r.URL) && r.URL.Path == old(r.URL.Path)
+//@   loop 1 invariant forall(k, 0, #i, !protected(k))
+//@   loop 2 invariant 0 <= c && c <= 10 && nextCalls == old(nextCalls) + 1 + c && r.URL != nil && forall(k, 0, len(i.Paths), !protected(k))
+//@   loop 2 decreases 10 - c
